@@ -26,6 +26,12 @@ type c13Case struct {
 	// else together with a restated Update FAR. Reports are then addressed with the new SEID.
 	NewCP     []uint64 `json:"newcp,omitempty"`
 	NewCPBare []bool   `json:"newcpbare,omitempty"`
+	// Early (UP4, per session): the switch reports downlink data for the UE address before the session exists (the
+	// address belongs to nobody yet: nothing may be sent); the session's own first report later must still go out
+	Early []bool `json:"early,omitempty"`
+	// Reuse: after the reports, these sessions are deleted and a new session is established with the same UE
+	// address; downlink data for it is a first report of a new session
+	Reuse []int `json:"reuse,omitempty"`
 }
 
 func genC13(t *rapid.T) c13Case {
@@ -54,6 +60,13 @@ func genC13(t *rapid.T) c13Case {
 		}
 		c.NewCP = append(c.NewCP, ncp)
 		c.NewCPBare = append(c.NewCPBare, rapid.Bool().Draw(t, "bare"))
+		c.Early = append(c.Early, c.UP4 && rapid.IntRange(0, 3).Draw(t, "early") == 0)
+	}
+	for k := rapid.IntRange(0, 2).Draw(t, "nreuse"); k > 0; k-- {
+		i := rapid.IntRange(0, n-1).Draw(t, "reuse")
+		if !containsInt(c.Reuse, i) {
+			c.Reuse = append(c.Reuse, i)
+		}
 	}
 	ne := rapid.IntRange(1, scale(60, 200)).Draw(t, "nev")
 	for i := 0; i < ne; i++ {
@@ -87,6 +100,7 @@ func runC13(c c13Case, ev *Ev) error {
 	if o := run.Exec(opAssoc(0, 1)); !o.Accepted {
 		return fmt.Errorf("INFRA: association not accepted")
 	}
+	early := 0
 	for i, k := range c.Kinds {
 		ctx := sessCtx{idx: i, ue: fmt.Sprintf("10.62.%d.%d", i/250, i%250+1), gnb: "198.18.3.3", teidUL: uint32(0x9000 + i)}
 		op := model.Op{Kind: "est", Peer: 0, Seq: uint32(10 + i), Sess: i, CPSEID: c.CPSEID[i]}
@@ -106,6 +120,13 @@ func runC13(c c13Case, ev *Ev) error {
 				f.Action = model.ActDROP
 			}
 			op.FARs = append(op.FARs, f)
+		}
+		if c.UP4 && i < len(c.Early) && c.Early[i] {
+			if r.P4.InjectDigest(model.IP2U(ctx.ue)) == 0 {
+				return fmt.Errorf("INFRA: no P4Runtime stream to send a digest on")
+			}
+			early++
+			time.Sleep(30 * time.Millisecond) // let the agent act on it while the address is nobody's
 		}
 		if o := run.Exec(op); !o.Accepted {
 			return fmt.Errorf("establishment %d (%s) not accepted: cause %d", i, k, o.Cause)
@@ -144,7 +165,9 @@ func runC13(c c13Case, ev *Ev) error {
 		}
 	}
 	p := run.Peers[0].P
-	p.Drain()
+	if early == 0 {
+		p.Drain()
+	} // else: a report provoked by an early digest that the agent saw late is a report of that session and is counted
 	for _, e := range c.Events {
 		if c.UP4 {
 			// a digest carries the UE address the buffered packet was for
@@ -237,9 +260,71 @@ func runC13(c c13Case, ev *Ev) error {
 			return fmt.Errorf("session %d (%s, F-SEID %#x, %d datapath reports): the first report was suppressed - no Session Report Request arrived", i, k, run.Sess[i].UPSEID, hits[i])
 		case want[i] && got[i] > 1:
 			return fmt.Errorf("session %d (%s): %d Session Report Requests within one notification interval", i, k, got[i])
+		case !want[i] && got[i] == 1 && k == "nocp" && c.UP4 && i < len(c.Early) && c.Early[i]:
+			// the early digest was acted on only after the session had been established: a legitimate first report
 		case !want[i] && got[i] > 0:
 			return fmt.Errorf("session %d (%s): Session Report Request sent although its downlink rule does not ask for notification (or no report came in)", i, k)
 		}
+	}
+	// a new session on the UE address of a deleted one
+	reused := 0
+	for j, i := range c.Reuse {
+		if i >= len(c.Kinds) || c.Kinds[i] != "nocp" {
+			continue
+		}
+		if o := run.Exec(model.Op{Kind: "del", Peer: 0, Seq: uint32(6000 + j), Sess: i}); !o.Accepted {
+			return fmt.Errorf("deletion of session %d not accepted (cause %d)", i, o.Cause)
+		}
+		ni := len(c.Kinds) + j
+		ue := fmt.Sprintf("10.62.%d.%d", i/250, i%250+1)
+		ncp := uint64(0x7ab00000 + j)
+		op := model.Op{Kind: "est", Peer: 0, Seq: uint32(6100 + j), Sess: ni, CPSEID: ncp}
+		op.PDRs = []model.PDR{{ID: 1, Prec: 10, Src: "access", FTEID: true, TEID: uint32(0xa000 + ni), N3: accessIP(), OHR: true, FAR: 1},
+			{ID: 7, Prec: 10, Src: "core", HasUE: true, UEIP: ue, FAR: 2}}
+		op.FARs = []model.FAR{{ID: 1, Action: model.ActFORW, HasFwd: true, DstIf: model.IfCore}, {ID: 2, Action: model.ActBUFF | model.ActNOCP}}
+		if o := run.Exec(op); !o.Accepted {
+			return fmt.Errorf("establishment of a new session on the UE address of deleted session %d not accepted (cause %d)", i, o.Cause)
+		}
+		if c.UP4 {
+			if r.P4.InjectDigest(model.IP2U(ue)) == 0 {
+				return fmt.Errorf("INFRA: no P4Runtime stream to send a digest on")
+			}
+		} else {
+			b := make([]byte, 8)
+			binary.LittleEndian.PutUint64(b, run.Sess[ni].UPSEID)
+			if err := r.Notify.Write(b); err != nil {
+				return fmt.Errorf("INFRA: notify write: %v", err)
+			}
+		}
+		ok := false
+		for deadline := time.Now().Add(5 * time.Second); !ok && time.Now().Before(deadline); {
+			d, err := p.RecvFresh(50 * time.Millisecond)
+			if err != nil {
+				continue
+			}
+			m, perr := message.Parse(d.B)
+			if perr != nil {
+				return fmt.Errorf("undecodable datagram from the agent: %x", d.B)
+			}
+			sr, isSR := m.(*message.SessionReportRequest)
+			if !isSR {
+				return fmt.Errorf("unexpected %s from the agent", m.MessageTypeName())
+			}
+			if sr.SEID() != ncp {
+				return fmt.Errorf("Session Report Request addressed to SEID %#x after downlink data for the new session on UE %s, want its CP SEID %#x", sr.SEID(), ue, ncp)
+			}
+			ok = true
+		}
+		if !ok {
+			return fmt.Errorf("new session on UE address %s (reused from deleted session %d, which had %d notification(s)): its first report was suppressed - no Session Report Request arrived", ue, i, got[i])
+		}
+		reused++
+	}
+	if reused > 0 {
+		ev.Label("ue-address-reused")
+	}
+	if early > 0 {
+		ev.Label("digest-before-session")
 	}
 	kinds := map[string]bool{}
 	multi := false
@@ -257,6 +342,15 @@ func runC13(c c13Case, ev *Ev) error {
 	}
 	ev.Case(c, len(kinds) >= 3 && multi, len(c.Events))
 	return nil
+}
+
+func containsInt(l []int, v int) bool {
+	for _, x := range l {
+		if x == v {
+			return true
+		}
+	}
+	return false
 }
 
 func dupIn(cp []uint64, v uint64) bool {
